@@ -445,6 +445,26 @@ func (fv *FV) contractCall(name string, call *ast.CallExpr, cx *Cx) (TV, bool) {
 			ne = append(ne, not(eq("r!f", fv.expr(a, cx).T)))
 		}
 		return b(fmt.Sprintf("(forall ((r!f Int)) (! (=> %s (= %s %s)) :pattern (%s)))", and(ne...), sel(cur, "r!f"), sel(old, "r!f"), sel(cur, "r!f")))
+	case "frameOld":
+		// frameOld("Cell.name", ref...): every object that was allocated at function entry, other than the listed references,
+		// is as at function entry (the shape of the frame obligation of a modifies clause `at r where r == ref`; to be carried
+		// through loops whose body calls functions with such a frame)
+		lit, ok := call.Args[0].(*ast.BasicLit)
+		if !ok {
+			panic(refuse("frameOld: first argument must be a cell name string"))
+		}
+		cell := fv.cellForField(strings.Trim(lit.Value, "\""))
+		cur := fv.get(cx.st, cell, "")
+		old := fv.get(fv.entry, cell, "")
+		lowb := "(< 0 r!f)"
+		if strings.HasPrefix(cell, "E!") || strings.HasPrefix(cell, "M") {
+			lowb = "(<= 0 r!f)"
+		}
+		ne := []string{lowb, sx("<", "r!f", fv.get(fv.entry, "alloc", SInt))}
+		for _, a := range call.Args[1:] {
+			ne = append(ne, not(eq("r!f", fv.expr(a, cx).T)))
+		}
+		return b(fmt.Sprintf("(forall ((r!f Int)) (! (=> %s (= %s %s)) :pattern (%s)))", and(ne...), sel(cur, "r!f"), sel(old, "r!f"), sel(cur, "r!f")))
 	case "as":
 		// as(x, TypeName): x viewed as *TypeName (for error/interface values known to hold that type)
 		x := fv.expr(call.Args[0], cx)
@@ -461,6 +481,21 @@ func (fv *FV) contractCall(name string, call *ast.CallExpr, cx *Cx) (TV, bool) {
 		}
 		_, ic := fv.rangeCells(cx.rng)
 		return TV{T: fv.get(cx.st, ic, SInt), S: SInt, Ty: tInt}, true
+	case "cur":
+		// cur(): cursor of the enclosing range loop over a list iterator: the element the next iteration receives (nil: done)
+		if cx.rng == nil {
+			panic(refuse("cur() outside the invariant of a range loop"))
+		}
+		li, _, _ := fv.rangeOverList(cx.rng)
+		if li == nil {
+			panic(refuse("cur() in a range loop that is not over a list iterator"))
+		}
+		xc, _ := fv.rangeCells(cx.rng)
+		var ty types.Type
+		if obj := u.lookupTypeName(li.Struct); obj != nil {
+			ty = types.NewPointer(obj.Type())
+		}
+		return TV{T: fv.get(cx.st, xc, SInt), S: SInt, Ty: ty}, true
 	case "emptyset":
 		return TV{T: "((as const (Array Int Bool)) false)", S: arr(SInt, SBool)}, true
 	case "setof":
